@@ -614,14 +614,13 @@ def main(tier):
     rep.trusted = ['clang 14 / nasm constant evaluation', 'checker RFC 1951 reference (canonical codes, header parser)']
     rep.analysed = dict(configurations=CONFIGS, units=['igzip/static_inflate.h', 'igzip/igzip_inflate.c', 'igzip/hufftables_c.c', 'igzip/rfc1951_lookup.asm',
                                                        'igzip/inflate_data_structs.asm', 'igzip/igzip_decode_block_stateless.asm'])
-    check_rfc(rep)
+    rep.attempt(check_rfc, rep)
     for c in CONFIGS:
         check_pregen(rep, c)
         check_mirror(rep, c)
-    check_rollback(rep)
-    check_trailer_consume(rep)
+    rep.attempt(check_rollback, rep)
+    rep.attempt(check_trailer_consume, rep)
     import acct, c19, llir, c17
-    c17.check_dict_tail(rep, llir.library('default'))
-    acct.check(rep, 'i', 50, c19.field_offsets('struct isal_zstream', ['next_in', 'avail_in', 'total_in', 'next_out', 'avail_out', 'total_out']),
-               c19.field_offsets('struct inflate_state', ['next_in', 'avail_in', 'next_out', 'avail_out', 'total_out']), llir.library('default'))
+    rep.attempt(c17.check_dict_tail, rep, llir.library('default'))
+    rep.attempt(acct.check, rep, 'i', 50, c19.field_offsets('struct isal_zstream', ['next_in', 'avail_in', 'total_in', 'next_out', 'avail_out', 'total_out']), c19.field_offsets('struct inflate_state', ['next_in', 'avail_in', 'next_out', 'avail_out', 'total_out']), llir.library('default'))
     return rep.finish()
